@@ -437,6 +437,15 @@ func (sc *srvScen) nodeListQueries(n int) {
 				}
 			}
 		}
+		if r.Intn(8) == 0 && len(answeredOnce) > 0 {
+			// a known contact comes back from the same address under another ID (it restarted), and answers us
+			k := answeredOnce[r.Intn(len(answeredOnce))]
+			nid := sc.idInBucket(buckets[r.Intn(len(buckets))])
+			sc.send(k.addr, sc.mkQuery("ping", nid, nid))
+			sc.respondingNode(k.addr, nid, false)
+			ids = append(ids, nid)
+			sc.r.hist("populate/known-address-returns-under-another-id")
+		}
 		if r.Intn(15) == 0 {
 			sc.advance([]time.Duration{10 * time.Minute, 16 * time.Minute}[r.Intn(2)])
 			// after the pause some old contacts answer again (they are good again; their buckets did not change)
@@ -449,11 +458,33 @@ func (sc *srvScen) nodeListQueries(n int) {
 		}
 	}
 	sc.emitTable()
+	// infohashes for which peers of one address family only are stored: a requester that cannot use them
+	// still gets the closest contacts
+	var oneFamily [][20]byte
+	if sc.ps != nil {
+		for f := 0; f < 2 && !sc.dead; f++ {
+			ih := sc.idInBucket(buckets[r.Intn(len(buckets))])
+			for j := 0; j < 1+r.Intn(3); j++ {
+				src, id := sc.freshSrc([]int{0, 1}[f]), sc.r.randID()
+				q := sc.mkQuery("announce_peer", id, ih)
+				q.ro = true
+				tok := sc.fetchToken(src, id)
+				q.token, q.hasTok = tok, tok != nil
+				p := int64(6881)
+				q.port, q.implied = &p, false
+				sc.send(src, q)
+			}
+			oneFamily = append(oneFamily, ih)
+		}
+	}
 	for i := 0; i < n && !sc.dead; i++ {
 		var target [20]byte
 		switch r.Intn(6) {
 		case 0:
 			target = sc.root
+			if len(oneFamily) > 0 {
+				target = oneFamily[r.Intn(len(oneFamily))]
+			}
 		case 1:
 			target = ids[r.Intn(len(ids))]
 		default:
@@ -463,7 +494,11 @@ func (sc *srvScen) nodeListQueries(n int) {
 		q := sc.mkQuery([]string{"find_node", "get_peers", "get"}[r.Intn(3)], sc.r.randID(), target)
 		q.ro = true // keep the table fixed while sampling replies
 		res := sc.send(src, q)
-		sc.oracleNodeLists(src, q, target, res.obs)
+		if len(res.obs.values) == 0 {
+			sc.oracleNodeLists(src, q, target, res.obs)
+		} else {
+			sc.r.hist("nodes-reply/with-values")
+		}
 		sc.r.hist(fmt.Sprintf("nodes-reply/n4=%d,n6=%d", len(res.obs.nodes), len(res.obs.nodes6)))
 		sc.r.count(fmt.Sprintf("%s|%x|%v|%d", q.q, target, q.want, len(src.IP)), len(res.obs.nodes)+len(res.obs.nodes6) > 0)
 	}
@@ -528,6 +563,7 @@ func (sc *srvScen) oracleNodeLists(src *net.UDPAddr, q *qspec, target [20]byte, 
 				continue
 			}
 			n := t.Nodes[*found]
+			n.Bucket = commonPrefixLen(t.Root, n.Id) // where its ID puts it, whatever the table believes
 			chosen[hx(n.Id[:])+"@"+n.Addr] = true
 			if !n.Good {
 				sc.viol("C09", "reply lists a contact that is not currently good")
@@ -556,6 +592,7 @@ func (sc *srvScen) oracleNodeLists(src *net.UDPAddr, q *qspec, target [20]byte, 
 		elig := 0
 		for _, n := range t.Nodes {
 			ua, _ := net.ResolveUDPAddr("udp", n.Addr)
+			n.Bucket = commonPrefixLen(t.Root, n.Id)
 			if !n.Good || n.Bucket > start || (ua.IP.To4() != nil) != v4 {
 				continue
 			}
